@@ -45,9 +45,10 @@ def det(a: PolyLike) -> ndpoly:
             - a[index + (1, 0)] * a[index + (0, 1)]
         )
     out = numpoly.zeros_like(a, shape=a.shape[:-2])
-    r = numpy.arange(1, dims, dtype=int)
     for idx in range(dims):
+        # Laplace expansion along the first row: the minor without column idx, with alternating sign
+        columns = [column for column in range(dims) if column != idx]
         idx0 = index + (0, idx)
-        idx1 = index + (slice(1, None), (r + idx) % dims)
-        out = out + a[idx0] * det(a[idx1])
+        idx1 = index + (slice(1, None), columns)
+        out = out + (-1) ** idx * a[idx0] * det(a[idx1])
     return out
